@@ -258,6 +258,9 @@ pub fn generator_return(
     match &obj_ref.exotic {
         ExoticObject::BytecodeGenerator(state) => {
             let is_async = state.borrow().is_async;
+            if state.borrow().status == GeneratorStatus::Running {
+                return Err(JsError::type_error("Generator is already running"));
+            }
             state.borrow_mut().status = GeneratorStatus::Completed;
             drop(obj_ref);
             let result = create_generator_result(interp, value, true);
@@ -298,6 +301,9 @@ pub fn generator_throw(
             // Check if generator is completed or not started
             {
                 let state_ref = gen_state.borrow();
+                if state_ref.status == GeneratorStatus::Running {
+                    return Err(JsError::type_error("Generator is already running"));
+                }
                 if state_ref.status == GeneratorStatus::Completed {
                     let guarded = Guarded::from_value(exception, &interp.heap);
                     return Err(JsError::ThrownValue { guarded });
